@@ -24,9 +24,6 @@ theorem entriesOf_putAcl_other (d : Dev) (n x : Name) (es : Entries) (h : x ≠ 
     entriesOf (putAcl d n es) x = entriesOf d x := by
   simp only [putAcl, entriesOf_strip]; exact entriesOf_setAcl_other d n x es h
 
-/-- Directions are `in` or `out`. -/
-def isDir (dir : String) : Bool := dir == "in" || dir == "out"
-
 def slotL (l : List DIntf) (x dir : String) : Option Name :=
   match l.find? (·.name == x) with
   | some i => if dir == "out" then i.outB else i.inB
